@@ -1,6 +1,8 @@
 package main
 
 import (
+	"github.com/jub0bs/cors/cfgerrors"
+	"errors"
 	"flag"
 	"fmt"
 	"math/rand"
@@ -121,19 +123,19 @@ func cmdC17X(args []string) {
 		func() {
 			defer func() {
 				if p := recover(); p != nil {
-					t.emit(map[string]any{"ev": "Panic", "what": fmt.Sprint(p), "where": "NewMiddleware/Reconfigure/Config/All", "origins": c.Origins})
+					t.emit(map[string]any{"ev": "Panic", "what": fmt.Sprint(p), "where": "NewMiddleware/Reconfigure/Config/All", "config": fmt.Sprintf("%.300q", fmt.Sprintf("%+v", c))})
 				}
 			}()
 			m, err := cors.NewMiddleware(c)
 			if err != nil {
-				observeErr(err)
+				walkAll(err)
 			} else {
 				m.Config()
 				m.Reconfigure(m.Config())
 			}
 			z := new(cors.Middleware)
 			if err := z.Reconfigure(&c); err != nil {
-				observeErr(err)
+				walkAll(err)
 			}
 			z.Config()
 		}()
@@ -141,6 +143,31 @@ func cmdC17X(args []string) {
 	}
 	t.emit(map[string]any{"ev": "Done", "calls": calls, "cfgcalls": cfgCalls})
 	writeJSON(*out, map[string]any{"request_calls": calls, "extreme_requests": extreme, "config_calls": cfgCalls, "events": t.n})
+}
+
+// walkAll consumes cfgerrors.All(err) in every way a caller can: to the end, and broken off after k = 1, 2, ... items
+// (a range loop and a direct call of the iterator), plus Error() and Unwrap of every yielded error. Panics propagate.
+func walkAll(err error) {
+	n := 0
+	for e := range cfgerrors.All(err) {
+		_ = e.Error()
+		errors.Unwrap(e)
+		n++
+	}
+	_ = err.Error()
+	for k := 1; k <= n; k++ {
+		i := 0
+		for range cfgerrors.All(err) {
+			if i++; i >= k {
+				break
+			}
+		}
+		i = 0
+		seq := cfgerrors.All(err)
+		seq(func(error) bool { i++; return i < k })
+		for range seq {
+		}
+	}
 }
 
 // ---------------------------------------------------------------- C18: allocations per request
@@ -181,12 +208,22 @@ func cmdC18(args []string) {
 		many = append(many, fmt.Sprintf("x-h%03d", i))
 	}
 	kinds = append(kinds, kindCfg{"discrete-128-names", Sem{Pats: []cPattern{ex}, Status: 204, Pna: "none", HNames: many}})
+	// configurations whose origin tree is DEEP (a chain of nested subdomains, each allowed: one tree level per label) or
+	// matches arbitrarily deep subdomains: the success path of the Origin lookup with an allowed origin of growing depth
+	var chain []cPattern
+	for i := 0; i <= 120; i++ {
+		chain = append(chain, cPattern{Scheme: "https", Host: strings.Repeat("a.", i) + "example.com"})
+	}
+	kinds = append(kinds, kindCfg{"nested-chain-121-origins", Sem{Pats: chain, Status: 204, Pna: "none", Meths: []string{"PUT"}, HNames: []string{"x-a"}}})
+	kinds = append(kinds, kindCfg{"nested-chain-credentialed", Sem{Pats: chain, Cred: true, Status: 204, Pna: "none", MAny: true, HStar: true}})
+	kinds = append(kinds, kindCfg{"wildcard-subdomains", Sem{Pats: []cPattern{{Scheme: "https", Wild: true, Host: "example.com"}, ex}, Status: 204, Pna: "none", Meths: []string{"PUT"}, HNames: []string{"x-a"}}})
+	deepKind := func(name string) bool { return strings.HasPrefix(name, "nested-chain") || name == "wildcard-subdomains" }
 	ladder := []int{1, 10, 100, 1000, 10000}
 	if *big {
 		ladder = append(ladder, 100000, 1<<20)
 	}
 	shapes := []string{"bytes", "elements", "empties", "lines", "emptylines", "ows", "allowed-then-junk",
-		"allowed", "allowed-sp", "allowed-tab", "allowed-both", "allowed-lines", "allowed-empties"}
+		"allowed", "allowed-sp", "allowed-tab", "allowed-both", "allowed-lines", "allowed-empties", "allowed-deep"}
 	measures := 0
 	for _, kc := range kinds {
 		m, err := cors.NewMiddleware(*kc.s.spell(rng))
@@ -198,7 +235,13 @@ func cmdC18(args []string) {
 			m.SetDebug(dbg)
 			for _, field := range []string{hOrigin, hACRM, hACRH} {
 				for _, shape := range shapes {
-					if field != hACRH && shape != "bytes" && shape != "lines" {
+					if shape == "allowed-deep" {
+						if field != hOrigin || !deepKind(kc.name) {
+							continue
+						}
+					} else if deepKind(kc.name) && field != hOrigin {
+						continue // the other fields are covered by the first six kinds
+					} else if field != hACRH && shape != "bytes" && shape != "lines" {
 						continue
 					}
 					for _, method := range []string{"OPTIONS", "GET"} {
@@ -211,7 +254,16 @@ func cmdC18(args []string) {
 								hd[hACRM] = []string{"GET"} // safelisted: the header step is reached
 							}
 							var v []string
-							if strings.HasPrefix(shape, "allowed") && shape != "allowed-then-junk" {
+							if shape == "allowed-deep" {
+								// an ALLOWED origin n labels below example.com (n <= 120: the host stays under 253 bytes)
+								if n > 120 {
+									if n != 1000 {
+										continue
+									}
+									n = 120
+								}
+								v = []string{"https://" + strings.Repeat("a.", n) + "example.com"}
+							} else if strings.HasPrefix(shape, "allowed") && shape != "allowed-then-junk" {
 								if kc.name != "discrete-128-names" || n > 128 {
 									continue
 								}
